@@ -155,6 +155,12 @@ def impl_method(F, ty, name, trait=None):
                     cands.append(f)
         if len(cands) == 1:
             return cands[0]
+    if trait:
+        # renamed trait method: the only method of that trait's impl for this type that returns the wire bytes
+        cands = [f for f in F.user_fns() if f.self_ty == ty and f.kind == 'AssocFn' and (f.trait or '').endswith(trait)
+                 and re.search(r'^std::vec::Vec<u8>$', f.locals[0]['ty'])]
+        if len(cands) == 1:
+            return cands[0]
     raise AnchorMissing('%s::%s not found' % (ty, name))
 
 
@@ -591,7 +597,41 @@ def r_bitfield(cx, rec):
     # to_vec: push(byte & MASK != 0) then byte <<= 1 ; stop at pieces_num
     pushes = [bb for bb in mirq.real_calls(tv) if tv.blocks[bb]['t'].get('name') == 'push']
     grow = [bb for bb in mirq.real_calls(tv) if tv.blocks[bb]['t'].get('name') in ('extend', 'extend_from_slice', 'resize', 'append', 'insert', 'push_back', 'push_front', 'truncate', 'pop')]
-    rec.need(len(pushes) == 1 and not grow, 'bitfield/to_vec/extra-output', tv, None,
+    # second accepted idiom: bytes.iter().flat_map(|b| (0..8).map(move |i| b & (0x80 >> i) != 0)).take(pieces_num).collect()
+    tnames = [tv.blocks[bb]['t'].get('name') for bb in mirq.real_calls(tv)]
+    chain_ok = False
+    if not pushes and not grow and 'flat_map' in tnames and 'take' in tnames and 'collect' in tnames and \
+            not set(tnames) & {'rev', 'skip', 'step_by', 'filter', 'skip_while', 'take_while', 'chain', 'zip', 'cycle'}:
+        tb = [bb for bb in mirq.real_calls(tv) if tv.blocks[bb]['t'].get('name') == 'take']
+        limit = access_path(strip_cast(tv.expr_call(tb[0])[2][1])) if len(tb) == 1 else None
+        params_tv = [n for n, l, t in C.params_of(tv)]
+        tbodies = list({b.path: b for b in descendants(tv.path)}.values())
+        tests = []
+        for b in tbodies:
+            for bi, si, s in b.assigns():
+                e = b.expr_rvalue(s['rv'])
+                band = None
+                if e[0] == 'binop' and e[1] == 'Ne' and cval(e[3]) == 0:
+                    if e[2][0] == 'binop' and e[2][1] == 'BitAnd':
+                        band = (e[2][2], e[2][3])
+                    elif e[2][0] == 'call' and e[2][4].get('name') == 'bitand' and len(e[2][2]) == 2:
+                        band = tuple(e[2][2])
+                if band:
+                    sh = [x for x in band if x[0] == 'binop' and x[1] in ('Shr', 'ShrUnchecked')]
+                    if sh and cval(sh[0][2]) == 0x80 and C.is_param(b, sh[0][3][1] if sh[0][3][0] == 'cast' else sh[0][3]):
+                        tests.append((b, bi, e))
+        rng8 = any(x[0] == 'agg' and dict(x[4]).get('start') is not None and cval(dict(x[4])['start']) == 0 and cval(dict(x[4]).get('end', ('const', None, None, ''))) == 8
+                   for b in tbodies for bi, si, s in b.assigns() for x in mirq.walk(b.expr_rvalue(s["rv"])))
+        src_ok = any(tv.blocks[bb]['t'].get('name') == 'iter' and (access_path(tv.expr_call(bb)[2][0]) or '').startswith('self.') for bb in mirq.real_calls(tv))
+        chain_ok = len(tests) == 1 and rng8 and src_ok and limit in params_tv and 'num' in (limit or '')
+        for b, bi, e in tests:
+            rec.site(b, bi, 'to_vec (chain form): bit test %s; range 0..8: %s; take(%s)' % (show(e)[:60], rng8, limit))
+    if chain_ok:
+        pushes = []
+        for bb in mirq.real_calls(tv):
+            if tv.blocks[bb]['t'].get('name') in ('iter', 'flat_map', 'take'):
+                rec.site(tv, bb, 'to_vec (chain form): %s' % show(tv.expr_call(bb))[:80])
+    rec.need(chain_ok or (len(pushes) == 1 and not grow), 'bitfield/to_vec/extra-output', tv, None,
              'to_vec produces output bits in %d places besides the bit test (%s): every bit must go through the same test-and-count step so that the '
              'vector stops at pieces_num' % (len(pushes) + len(grow) - 1, [tv.blocks[b]['t'].get('name') for b in grow]))
     # stop at pieces_num: after every push the length is compared with pieces_num before the next push
@@ -611,7 +651,7 @@ def r_bitfield(cx, rec):
     oks = any(e[1].startswith('Shl') and cval(e[3]) == 1 and access_path(e[2]) for bi, e in shl)
     for bi, e in shl:
         rec.site(tv, bi, 'to_vec: byte = %s' % show(e)[:60])
-    rec.need(okp and oks, 'bitfield/to_vec/bit-order', tv, None,
+    rec.need(chain_ok or (okp and oks), 'bitfield/to_vec/bit-order', tv, None,
              'to_vec must test (byte & 0x80) and then shift the byte left by one (MSB first); idiom not found')
     rec.need(mask is not None and mask.get('val') == 0x80, 'bitfield/mask', ty + '::BYTE_MASK', None, 'BYTE_MASK must be 0x80')
     rec.need(bits is not None and bits.get('val') == 8, 'bitfield/bits', ty + '::BITS_IN_BYTE', None, 'BITS_IN_BYTE must be 8')
